@@ -27,7 +27,7 @@ func init() {
 		Units:       func(tier string) []string { return []string{"auth2", "wincert", "constructed", "fixtures"} },
 		Run:         c10Run,
 		Bound: func(tier string) map[string]any {
-			return map[string]any{"certdata_lengths": c10Lens(tier), "payload_lengths": []int{0, 1, 16, 28, 1000}, "timestamps": len(c10Times()), "type_guids": 3}
+			return map[string]any{"certdata_lengths": c10Lens(tier), "payload_lengths": []int{0, 1, 16, 28, 1000, 9, 6}, "payloads_starting_with_zero_bytes": true, "readers": []string{"*bytes.Reader", "*bytes.Buffer (storage scribbled over after decoding)"}, "timestamps": len(c10Times()), "type_guids": 3}
 		},
 		Budget: dur(2*time.Minute, 10*time.Minute),
 	})
@@ -102,6 +102,9 @@ func c10Auth(c *hx.Ctx, in, payload []byte, class string) {
 	consumed := len(full) - r.Len()
 	rest := full[len(full)-r.Len():]
 	bad := func(what string, detail map[string]any) {
+		if detail == nil {
+			detail = map[string]any{}
+		}
 		detail["input"] = hx8(full)
 		detail["class"] = class
 		c.Outcome("violation:" + what)
@@ -131,6 +134,31 @@ func c10Auth(c *hx.Ctx, in, payload []byte, class string) {
 	if v2.Time != v.Time || v2.AuthInfo.Header.Length != v.AuthInfo.Header.Length || v2.AuthInfo.Header.Revision != v.AuthInfo.Header.Revision ||
 		v2.AuthInfo.Header.CertType != v.AuthInfo.Header.CertType || v2.AuthInfo.CertType != v.AuthInfo.CertType || !bytes.Equal(v2.AuthInfo.CertData, v.AuthInfo.CertData) {
 		bad("decode(encode(v)) differs from v", map[string]any{})
+		return
+	}
+	// same through a *bytes.Buffer (the reader the efivarfs layer hands to Unmarshal), whose
+	// storage is overwritten afterwards: consumed length, payload and the decoded value must not change
+	buf := bytes.NewBuffer(append([]byte{}, full...))
+	var v3 signature.EFIVariableAuthentication2
+	if p := hx.Try(func() { err = v3.Unmarshal(buf) }); p != nil || err != nil {
+		bad("decoding from a *bytes.Buffer fails", map[string]any{"error": fmt.Sprint(err, p)})
+		return
+	}
+	if !bytes.Equal(buf.Bytes(), payload) {
+		bad("consumed bytes differ from 16+dwLength when decoding from a *bytes.Buffer", map[string]any{"rest": hx8(buf.Bytes()), "payload": hx8(payload)})
+		return
+	}
+	st := buf.Bytes()[:0]
+	st = st[:cap(st)]
+	for i := range st {
+		st[i] ^= 0xff
+	}
+	buf.Reset()
+	buf.Write(bytes.Repeat([]byte{0xee}, len(full)))
+	var enc3 bytes.Buffer
+	v3.Marshal(&enc3)
+	if !bytes.Equal(enc3.Bytes(), in) {
+		bad("a decoded descriptor changes when the caller reuses the buffer it was decoded from", nil)
 		return
 	}
 	c.Outcome("ok")
@@ -168,6 +196,9 @@ func c10WinCert(c *hx.Ctx, in, payload []byte, class string) {
 	}
 	consumed := len(full) - r.Len()
 	bad := func(what string, detail map[string]any) {
+		if detail == nil {
+			detail = map[string]any{}
+		}
 		detail["input"] = hx8(full)
 		detail["class"] = class
 		c.Outcome("violation:" + what)
@@ -185,12 +216,31 @@ func c10WinCert(c *hx.Ctx, in, payload []byte, class string) {
 		bad("encoding a decoded value does not reproduce the consumed bytes", map[string]any{"encoded": hx8(enc.Bytes())})
 		return
 	}
+	buf := bytes.NewBuffer(append([]byte{}, full...))
+	var w3 signature.WINCertificate
+	if p := hx.Try(func() { w3, err = signature.ReadWinCertificate(buf) }); p != nil || err != nil {
+		bad("decoding from a *bytes.Buffer fails", map[string]any{"error": fmt.Sprint(err, p)})
+		return
+	}
+	if !bytes.Equal(buf.Bytes(), payload) {
+		bad("consumed bytes differ from dwLength when decoding from a *bytes.Buffer", map[string]any{"rest": hx8(buf.Bytes())})
+		return
+	}
+	st := buf.Bytes()[:0]
+	st = st[:cap(st)]
+	for i := range st {
+		st[i] ^= 0xff
+	}
+	if !bytes.Equal(w3.Certificate, want.Body) {
+		bad("a decoded WIN_CERTIFICATE changes when the caller reuses the buffer it was decoded from", nil)
+		return
+	}
 	c.Outcome("ok")
 	c.Nontrivial(full)
 }
 
 func c10Run(c *hx.Ctx, tier, unit string) {
-	payloads := [][]byte{{}, {0xee}, fill(16, 0x31), fill(28, 0x77), fill(1000, 0x05)}
+	payloads := [][]byte{{}, {0xee}, fill(16, 0x31), fill(28, 0x77), fill(1000, 0x05), make([]byte, 9), append(make([]byte, 3), 0x5a, 0, 0)}
 	guids := []refesl.GUID{guidPKCS7, guidRSA256, ownerA}
 	switch unit {
 	case "auth2":
